@@ -4,6 +4,7 @@ import Holpy.C06.Model
 Line protocol of the C06 model (one s-expression in, one out):
   (solve VARS (A ...) C)   -> (ok Z ...) | (error z3exc|crash)      assertion list of solve_core
   (convert VARS T)         -> (ok Z (Z ...)) | (error E (Z ...))    result and the assms table
+  (sguards SE) -> (GUARD ...)   sympyGuards;   (nocapture VARS (A ...) C) -> T|F|(error E)
   (sgoal neq DIVOK NZ) | (sgoal eq DIVOK NA NB) | (sgoal rel DIVOK TRUE)   -> T|F   solveGoal
   (sinterval neq|rel|eq (FLAG ...) MAIN)                                   -> T|F   solveWithInterval
 VARS = ((name TY) ...) free variables in `term.get_vars` order (function variables included).
@@ -81,6 +82,49 @@ partial def zTo : Z → Sexp
   | .all _ s b => .list [.atom "forall", srtTo s, zTo b]
   | .ex _ s b => .list [.atom "exists", srtTo s, zTo b]
 
+def cmpOf : String → Option Cmp
+  | "le" => some .le | "lt" => some .lt | "ge" => some .ge | "gt" => some .gt | _ => none
+
+partial def seOf : Sexp → Option SE
+  | .list [.atom "var", .atom x] => some (.var x)
+  | .list [.atom "num", p, q] => do some (.num (mkRat (← p.toInt?) (← q.toNat?)))
+  | .list [.atom "npow", a, n] => do some (.npow (← seOf a) (← n.toNat?))
+  | .list [.atom "rel", .atom op, a, b] => do some (.rel (← cmpOf op) (← seOf a) (← seOf b))
+  | .list [.atom op, a] => do
+      let a ← seOf a
+      match op with
+      | "neg" => some (.neg a) | "abs" => some (.abs a) | "sqrt" => some (.sqrt a) | "log" => some (.log a)
+      | "exp" => some (.exp a) | "sin" => some (.sin a) | "cos" => some (.cos a) | "tan" => some (.tan a)
+      | "cot" => some (.cot a) | "sec" => some (.sec a) | "csc" => some (.csc a) | "not" => some (.not a)
+      | _ => none
+  | .list [.atom op, a, b] => do
+      let a ← seOf a; let b ← seOf b
+      match op with
+      | "add" => some (.add a b) | "sub" => some (.sub a b) | "mul" => some (.mul a b) | "div" => some (.div a b)
+      | "rpow" => some (.rpow a b) | "eqn" => some (.eqn a b)
+      | _ => none
+  | _ => none
+
+def cmpTo : Cmp → String | .le => "le" | .lt => "lt" | .ge => "ge" | .gt => "gt"
+
+partial def seTo : SE → Sexp
+  | .var x => .list [.atom "var", .atom x]
+  | .num q => .list [.atom "num", Sexp.ofInt q.num, Sexp.ofNat q.den]
+  | .add a b => .list [.atom "add", seTo a, seTo b] | .sub a b => .list [.atom "sub", seTo a, seTo b]
+  | .mul a b => .list [.atom "mul", seTo a, seTo b] | .div a b => .list [.atom "div", seTo a, seTo b]
+  | .neg a => .list [.atom "neg", seTo a] | .abs a => .list [.atom "abs", seTo a]
+  | .npow a n => .list [.atom "npow", seTo a, Sexp.ofNat n] | .rpow a b => .list [.atom "rpow", seTo a, seTo b]
+  | .sqrt a => .list [.atom "sqrt", seTo a] | .log a => .list [.atom "log", seTo a] | .exp a => .list [.atom "exp", seTo a]
+  | .sin a => .list [.atom "sin", seTo a] | .cos a => .list [.atom "cos", seTo a] | .tan a => .list [.atom "tan", seTo a]
+  | .cot a => .list [.atom "cot", seTo a] | .sec a => .list [.atom "sec", seTo a] | .csc a => .list [.atom "csc", seTo a]
+  | .rel op a b => .list [.atom "rel", .atom (cmpTo op), seTo a, seTo b]
+  | .eqn a b => .list [.atom "eqn", seTo a, seTo b] | .not a => .list [.atom "not", seTo a]
+
+def guardTo : Guard → Sexp
+  | .nonzero e => .list [.atom "nonzero", seTo e]
+  | .nonneg e => .list [.atom "nonneg", seTo e]
+  | .pos e => .list [.atom "pos", seTo e]
+
 def varsOf (s : Sexp) : Option (List (String × Ty)) := do
   (← s.toList?).mapM fun
     | .list [.atom x, T] => do some (x, (← tyOf T))
@@ -105,6 +149,18 @@ def handle (line : String) : String :=
       | (.ok r, st) => toString (Sexp.list [.atom "ok", zTo r.toZ, .list (st.assms.map (zTo ·.2))])
       | (.error e, st) => toString (Sexp.list [.atom "error", errTo e, .list (st.assms.map (zTo ·.2))])
     | _, _ => "bad-op"
+  | some (.list [.atom "sguards", e]) =>
+    match seOf e with
+    | some e => toString (Sexp.list ((sympyGuards e).map guardTo))
+    | none => "bad-op"
+  | some (.list [.atom "nocapture", vars, .list as, c]) =>
+    -- solveCoreFull, then: are all assertions capture-free and do the final tables meet the checks?
+    match varsOf vars, as.mapM hOf, hOf c with
+    | some vs, some As, some C =>
+      match solveCoreFull vs As C with
+      | .ok (zs, _) => toString (Sexp.ofBool (zs.all (fun z => z.noCapture [])))
+      | .error e => toString (Sexp.list [.atom "error", errTo e])
+    | _, _, _ => "bad-op"
   | some (.list [.atom "sgoal", .atom "neq", dk, nz]) =>
     -- decision logic of solve_goal on ¬(a = b): E := Int, norm := id, the difference is nonzero iff NZ
     match dk.toBool?, nz.toBool? with
